@@ -155,8 +155,8 @@ func (p *chainPool) Exec(job Job) JobResult {
 		} else if err := json.Unmarshal(r.line, &res); err != nil {
 			res.Err = "bad result: " + err.Error()
 		}
-	case <-time.After(120 * time.Second):
-		res.Err = "worker deadline (120s) exceeded; output tail: " + tail(w.stderr.String(), 1500)
+	case <-time.After(jobDeadline(job)):
+		res.Err = fmt.Sprintf("worker deadline (%v) exceeded; output tail: ", jobDeadline(job)) + tail(w.stderr.String(), 1500)
 		w.kill()
 		w = nil
 	}
@@ -201,4 +201,11 @@ func RunJobJSON(bz []byte) string {
 	res := runJob(job)
 	out, _ := json.MarshalIndent(res, "", " ")
 	return string(out)
+}
+
+func jobDeadline(j Job) time.Duration {
+	if j.DeadlineSec > 0 {
+		return time.Duration(j.DeadlineSec) * time.Second
+	}
+	return 120 * time.Second
 }
